@@ -20,7 +20,7 @@ const ruleC03 = "generated histories over 2-3 logs with every refusal class incl
 
 var profC03 = vlib.Profile{
 	Prop: "C03", MinLogs: 2, MaxLogs: 3, MinOps: 4, MaxOps: 30,
-	Storages: []string{"mem", "sql"}, MaxJump: 512, OtherLogPct: 35, Decorate: 10, SharedKeys: true, FaultPct: 12,
+	Storages: []string{"mem", "sql"}, MaxJump: 512, OtherLogPct: 35, Decorate: 10, SharedKeys: true, FaultPct: 12, MixOldPct: 8,
 	Weights: map[string]int{"grow": 22, "refresh": 6, "fork": 12, "wrongold": 10, "badproof": 12, "replay": 4, "garbage": 6, "unkroot": 3, "oddroot": 1, "wrongkey": 6, "wrongorigin": 4, "unknownlog": 4, "smaller": 5, "decorated": 3, "zero": 2, "mismatch": 6},
 }
 
@@ -134,7 +134,7 @@ const ruleC20 = "generated mixed-verdict histories over 2-3 logs; per request th
 
 var profC20 = vlib.Profile{
 	Prop: "C20", MinLogs: 2, MaxLogs: 3, MinOps: 4, MaxOps: 30,
-	Storages: []string{"mem", "sql"}, MaxJump: 512, OtherLogPct: 35, Decorate: 5, SharedKeys: true, FaultPct: 4,
+	Storages: []string{"mem", "sql"}, MaxJump: 512, OtherLogPct: 35, Decorate: 5, SharedKeys: true, FaultPct: 10, MixOldPct: 8,
 	Weights: map[string]int{"grow": 25, "refresh": 8, "fork": 16, "wrongold": 8, "badproof": 14, "replay": 3, "garbage": 4, "unkroot": 3, "wrongkey": 4, "wrongorigin": 3, "unknownlog": 4, "smaller": 4, "decorated": 2, "zero": 3, "mismatch": 8},
 }
 
